@@ -1,7 +1,7 @@
 #!/bin/bash
 # dev helper: weave a unit and run verus (optionally on one function):  tools/v.sh screen [Screen::fn] [extra verus args]
 unit=${1:-screen}; shift
-fn=$1; [ -n "$fn" ] && shift
+fn=$1; case "$fn" in --*) fn="";; *) [ -n "$fn" ] && shift;; esac
 mkdir -p /verif/build/dev
 python3 /verif/weave/weave.py /verif/contracts/$unit.spec /repo /verif/build/dev/$unit.rs || exit 2
 cd /verif/build/dev
